@@ -325,12 +325,13 @@ class LoopSpec:
     def __init__(self, name, inv, length, item, modifies):
         self.name, self.inv, self.length, self.item, self.modifies = name, inv, length, item, modifies
 
-    def run(self, I, s, f):
+    def run(self, I, s, f, emit_init=True):
         it = I.eval(s.iter, f)
         n = self.length(I, f, it)
-        I.ex.oblige(self.name + ".init", self.inv(I, f, z3.IntVal(0)))
+        if emit_init:
+            I.ex.oblige(self.name + ".init", self.inv(I, f, z3.IntVal(0)))
         for v, sort in self.modifies.items():
-            f.locals[v] = I.ex.fresh(sort, "havoc_" + v)
+            f.locals[v] = sort(I) if callable(sort) else I.ex.fresh(sort, "havoc_" + v)
         if I.ex.choose(2) == 0:
             k = I.ex.fresh("int", "iter")
             I.ex.assume(z3.And(k >= 0, k < n))
@@ -787,6 +788,8 @@ class Interp:
             cm = self.eval(item.context_expr, f)
             if hasattr(cm, "__vc_enter__"):
                 v = cm.__vc_enter__(self)
+            elif type(cm).__name__ in ("no_grad", "enable_grad", "set_grad_enabled", "catch_warnings"):
+                v = None  # gradient-mode / warnings context managers: no effect on values (documented drop)
             else:
                 raise Unsupported("with-statement over %r" % (cm,))
             if item.optional_vars is not None:
@@ -1505,4 +1508,5 @@ PURE_NATIVE = {
     "math.floor", "math.ceil", "math.log", "math.exp", "math.sqrt", "builtins.any", "builtins.all", "builtins.reversed",
     "os.path.join", "os.path.basename", "os.path.dirname", "typing.get_args", "builtins.frozenset", "builtins.hasattr", "builtins.getattr",
     "builtins.pow", "builtins.ord", "builtins.chr", "builtins.format", "os.path.splitext", "numpy.iinfo", "numpy.finfo",
+    "torch.finfo", "torch.iinfo", "torch.autograd.grad_mode.no_grad", "torch.autograd.grad_mode.enable_grad", "warnings.catch_warnings",
 }
